@@ -10,7 +10,7 @@ VERIF = os.path.abspath(os.path.join(os.path.dirname(__file__), ".."))
 PROPS = [c["property_id"] for c in json.load(open(os.path.join(VERIF, "MANIFEST.json")))["checks"]]
 
 
-def run_variant(name, patch, strip):
+def run_variant(name, patch, strip, props=None):
     t0 = time.time()
     scratch = tempfile.mkdtemp(prefix="deltio-verif.", dir="/var/tmp")
     try:
@@ -25,7 +25,7 @@ def run_variant(name, patch, strip):
             return name, {"error": "build failed: " + r.stderr[-600:]}
         facts = r.stdout.strip().splitlines()[-1]
         res = {}
-        for p in PROPS:
+        for p in (props or PROPS):
             rr = subprocess.run([sys.executable, os.path.join(VERIF, "rules/run.py"), p, "--facts", facts, "--no-evidence"], capture_output=True, text=True)
             keys = []
             lines = rr.stdout.splitlines()
@@ -50,7 +50,9 @@ def main():
     ap.add_argument("--jobs", type=int, default=4)
     ap.add_argument("--seeded", action="store_true", help="also run /verif/seeded/*/patch.diff")
     ap.add_argument("--json", default=None)
+    ap.add_argument("--props", default=None, help="comma separated property ids to evaluate (default: all 19)")
     args = ap.parse_args()
+    props = args.props.split(",") if args.props else None
     expect = json.load(open(os.path.join(VERIF, "mutants/expect.json")))
     variants = []
     for name, e in sorted(expect.items()):
@@ -78,7 +80,7 @@ def main():
     bad = 0
     out = {}
     with concurrent.futures.ThreadPoolExecutor(max_workers=args.jobs) as ex:
-        futs = {ex.submit(run_variant, n, p, s): (n, e) for n, p, s, e in variants}
+        futs = {ex.submit(run_variant, n, p, s, props): (n, e) for n, p, s, e in variants}
         for f in concurrent.futures.as_completed(futs):
             n, e = futs[f]
             name, r = f.result()
@@ -94,7 +96,8 @@ def main():
             elif e["kind"] == "missed":
                 ok = True
             else:
-                ok = set(e["fires"]) <= set(fired) and set(broken) <= set(e.get("may_break", []))
+                want = set(e["fires"]) & set(props) if props else set(e["fires"])
+                ok = want <= set(fired) and set(broken) <= set(e.get("may_break", []))
             extra = sorted(set(fired) - set(e["fires"]))
             print("%s %-40s fired=%s%s%s  (%.0fs)" % ("ok   " if ok else "FAIL ", name, fired, " missing=%s" % sorted(set(e["fires"]) - set(fired)) if not ok and e["kind"] == "break" else "",
                                                       " also=%s" % extra if extra and e["kind"] == "break" else "", r["wall_s"]) + (" BROKEN=%s" % broken if broken else ""))
